@@ -51,6 +51,8 @@ void hk_wait_return(struct vt_wait *w);
 void hk_wait_block(struct vt_wait *w);	/* zero-time-out probe found nothing, the thread is about to block */
 /* nothing can happen any more: return 1 if a stimulus was applied, 0 = dead end */
 int  hk_quiescent(void);
+/* called at every detected quiescence (all threads blocked, nothing in flight), before virtual time is advanced */
+void hk_idle(void);
 void hk_dead_end(void);			/* hk_quiescent returned 0: harness reports + ends the case */
 void hk_write(int fd, const void *buf, size_t n, long ret, int err, int fl_nonblock);
 void hk_read(int fd, const void *buf, size_t n, long ret, int err);
